@@ -214,6 +214,14 @@ def c15b(ctx, tu):
                                o.startswith("field trompeloeil::lifetime_monitor::call_name of this") for o in org)
         streamed = any(e["e"] == "call" and e.get("op") == "<<" and ("'param', %d," % idx[0]) in str(e.get("args"))
                        for b, e in f.events())
+        if not streamed:
+            # ... or inside a local lambda of validate_match that captured it
+            for b, e in f.events():
+                if e["e"] == "lambda" and e.get("callop") in tu.fns:
+                    lam = tu.fns[e["callop"]]
+                    if any(x["e"] == "call" and x.get("op") == "<<" and ("'oparam', %d," % idx[0]) in str(x.get("args"))
+                           for _, x in lam.events()):
+                        streamed = True
         ctx.ob("C15.b.name", A["validate_match"], ok and streamed, pattern=f.pat, unit=tu.name,
                detail="" if ok and streamed else "a sequence-mismatch report must name the expectation (or destruction) that "
                "was matched out of order; the name comes from: " + ", ".join(sorted(org)))
@@ -371,8 +379,26 @@ def c15e(ctx, tu):
         ps = fn.rec["params"]
         if len(ps) >= 2 and ps[1]["t"].startswith("std::integer_sequence<"):
             idx = [x for x in ps[1]["t"][len("std::integer_sequence<unsigned long"):-1].split(",") if x.strip()]
-            calls = cfg.find_events(fn, lambda e: e["e"] == "call" and qe(e) == "trompeloeil::print_mismatch")
+            allc = cfg.find_events(fn, lambda e: e["e"] == "call" and qe(e) == "trompeloeil::print_mismatch")
+            # examinations of one parameter (4 arguments) vs. the recursive step over the remaining indices
+            def is_pack_overload(ev):
+                c = tu.fns.get(ev.get("callee"))
+                ps = (c.rec.get("params") or []) if c is not None else []
+                return len(ps) >= 2 and "integer_sequence" in ps[1].get("t", "")
+            rec = [c for c in allc if is_pack_overload(c[2])]
+            calls = [c for c in allc if c not in rec]
             n += 1
+            if rec:
+                # head / tail recursion: this instantiation examines its first index and hands the rest on, both
+                # unconditionally; the instantiation for the remaining indices is checked in its own right
+                ok = len(calls) == 1 and len(rec) == 1 and len(idx) >= 1 and \
+                    all(fn.exit not in cfg.reach(fn, fn.entry, avoid_blocks={b}) for b, i, e in calls + rec)
+                used = sorted(set(__import__("re").findall(r"std::get<(\d+)", str([e for _, _, e in calls]))))
+                ok = ok and used == [idx[0].strip().rstrip("UL").rstrip("ul")]
+                ctx.ob("C15.c.allparams", "trompeloeil::print_mismatch<I...>", ok, pattern=fn.pat, unit=tu.name, inst=fn.q,
+                       detail="" if ok else "each step of the recursion over the parameter indices must examine its first "
+                       "index and pass the rest on, unconditionally")
+                continue
             ok = len(calls) == len(idx)
             why = "one examination per parameter index is needed (%d indices, %d examinations)" % (len(idx), len(calls))
             if ok:
